@@ -125,7 +125,7 @@ pub fn search_c17_map(r: &mut Report, tier: &str) {
 /// C18: reset_remove(c) forgets exactly the dots c covers: witnesses, membership, replica clock; nothing else
 pub fn search_c18(r: &mut Report, tier: &str) {
     let depth = if tier == "thorough" { 5 } else { 4 };
-    r.target = "Orswot / VClock / MVReg::reset_remove(c): exactly the dots covered by c are forgotten (C18)".into();
+    r.target = "Orswot / VClock / MVReg / GCounter / PNCounter / Map::reset_remove(c): exactly the dots covered by c are forgotten (C18)".into();
     r.bound = format!("all Orswot states reached by <= {} generator steps x all clocks over actors {{1,2}} with counters 0..=3; reset twice == reset once; reset by c1 then c2 == reset by their join (Orswot, MVReg, and Map<u8,MVReg> states reached by <= 4 (quick) / 5 (thorough) steps incl. pending key removes); MVReg: 3 writes x same clocks", depth);
     let sts = states(depth);
     let sub = |x: &BTreeMap<u8, u64>, c: &VClock<u8>| -> BTreeMap<u8, u64> { x.iter().filter(|(a, n)| **n > c.get(a)).map(|(a, n)| (*a, *n)).collect() };
@@ -181,6 +181,20 @@ pub fn search_c18(r: &mut Report, tier: &str) {
             if r.failures > 0 { return; }
         } } } }
     }
+    // GCounter / PNCounter: the totals of exactly the actors whose counter is covered by c are forgotten
+    for x1 in 0..4u64 { for x2 in 0..4u64 { for y1 in 0..3u64 { for c1 in 0..4u64 { for c2 in 0..4u64 {
+        let c = clock_of(&[c1, c2]);
+        let mut g = crdts::GCounter::<u8>::new();
+        if x1 > 0 { g.apply(Dot::new(1u8, x1)); } if x2 > 0 { g.apply(Dot::new(2u8, x2)); }
+        let mut p = crdts::PNCounter::<u8>::new();
+        if x1 > 0 { let o = p.inc_many(1u8, x1); p.apply(o); } if x2 > 0 { let o = p.inc_many(2u8, x2); p.apply(o); } if y1 > 0 { let o = p.dec_many(1u8, y1); p.apply(o); }
+        g.reset_remove(&c); p.reset_remove(&c);
+        let keep = |n: u64, cn: u64| -> i64 { if n > cn { n as i64 } else { 0 } };
+        let want_g = keep(x1, c1) + keep(x2, c2);
+        let want_p = keep(x1, c1) + keep(x2, c2) - keep(y1, c1);
+        r.case("gcounter.reset_remove_exact", g.read() == num::BigUint::from(want_g as u64), &|| format!("counts {:?} reset_remove {:?}", [x1, x2], [c1, c2]), &|| format!("read {}", g.read()));
+        r.case("pncounter.reset_remove_exact", p.read() == num::BigInt::from(want_p), &|| format!("inc {:?} dec {:?} reset_remove {:?}", [x1, x2], [y1, 0], [c1, c2]), &|| format!("read {} want {}", p.read(), want_p));
+    } } } } }
     // MVReg: a value is forgotten iff its whole context is covered; contexts of survivors are untouched... (value clocks are reduced)
     let mut reg: MVReg<u8, u8> = MVReg::new();
     let w1 = reg.write(1, reg.read().derive_add_ctx(1)); reg.apply(w1);
